@@ -147,11 +147,11 @@ type World struct {
 
 	Viols []Violation
 
-	kmsRequests  [][]byte
+	kmsRequests     [][]byte
 	patIndex        map[uint32][]leakPattern
 	indexedSecrets  int
 	indexedPayloads int
-	sensPayloads [][]byte
+	sensPayloads    [][]byte
 
 	prng    *simrt.Rand
 	foreign *ForeignNode
